@@ -192,7 +192,7 @@ class C19(Check):
             "abstraction = every subset of <=2 proper sub-expressions replaced by wildcards, equal sub-trees optionally sharing one "
             "wildcard); evaluations per pattern: SimilarFinder.get_matches over the whole module and over every top-level statement "
             "span compared with the reference matcher (set of matched node positions, bindings of every wildcard), and "
-            "restructure.replace + Restructure(project).get_changes with 4 goals compared with the reference AST transformation; "
+            "restructure.replace + Restructure(project).get_changes with 4 expression goals and a two-line statement goal compared with the reference AST transformation; "
             "non-trivial = patterns with at least one wildcard or more than one match; distinct by (module, pattern)")
     assumptions = ["reference matcher: structural equality over CPython's ast ignoring expression context; a wildcard matches any expression; repeated wildcards must bind equal code",
                    "matches are identified by the interpreter's node positions (not by rope's regions, which C08 judges)"]
@@ -343,6 +343,9 @@ class C19(Check):
                         goals.append(("call-arg", "wrap(${w0})"))
                 else:
                     goals = [("same", ptxt)]
+                    if isinstance(pat, list) and len(pat) == 1:
+                        # a goal of several lines: the matched statement followed by `pass`, whatever the indentation of the match
+                        goals.append(("then-pass", ptxt + "\npass"))
                 for gname, gtxt in goals:
                     res["n"] += 1
                     gf = ["goal:" + gname]
@@ -368,7 +371,20 @@ class C19(Check):
                     want_dump = None
                     ref_text = None
                     needs_parens = False
-                    if gname != "same" and not isinstance(pat, list):
+                    if gname == "then-pass":
+                        ref_tree = ast.parse(src)
+                        matched = {id(nodes[0]) for nodes, b in find_matches(ref_tree, pat)}
+                        for lst in list(stmt_lists(ref_tree)):
+                            new_lst = []
+                            for st in lst:
+                                new_lst.append(st)
+                                if id(st) in matched:
+                                    new_lst.append(ast.Pass())
+                            lst[:] = new_lst
+                        ast.fix_missing_locations(ref_tree)
+                        ref_text = ast.unparse(ref_tree)
+                        want_dump = ast.dump(ast.parse(ref_text))
+                    if gname not in ("same", "then-pass") and not isinstance(pat, list):
                         goal_ast = ast.parse(gtxt.replace("${w0}", W[0]).replace("${w1}", W[1]), mode="eval").body
                         pat_ast = ast.parse(ptxt.replace("${w0}", W[0]).replace("${w1}", W[1]), mode="eval").body
                         ref_tree = transform(ast.parse(src), pat_ast, goal_ast)
